@@ -2,11 +2,11 @@
 # confirm_seed.sh <id> <outdir>: independently confirm a seeded change: demo passes on the unmodified tree, fails with the
 # patch, and the existing test suite still passes with the patch.  Uses its own scratch worktree, removed afterwards.
 set -u
-ID=$1; OUT=$2; WT=/tmp/confirm_$ID; DEMO=/tmp/confirm_${ID}_demo
+ID=$1; OUT=$2; ORIG=${3:-/tmp/seed_$ID}; WT=/tmp/confirm_$ID; DEMO=/tmp/confirm_${ID}_demo
 git -C /repo worktree remove --force $WT 2>/dev/null; rm -rf $DEMO
 git -C /repo worktree add -q --detach $WT HEAD || exit 2
 cp -r $OUT/demo $DEMO; rm -rf $DEMO/target
-sed -i "s#/tmp/seed_$ID#$WT#g" $DEMO/Cargo.toml
+grep -rl "$ORIG" $DEMO --include=Cargo.toml --include=build.rs | xargs -r sed -i "s#$ORIG#$WT#g"
 cp $WT/Cargo.lock $DEMO/Cargo.lock 2>/dev/null
 export CARGO_TARGET_DIR=/tmp/confirm_${ID}_target
 ( cd $DEMO && cargo run --offline -q >/tmp/confirm_${ID}_clean.log 2>&1 ); CLEAN=$?
